@@ -232,6 +232,27 @@ func kindScenario(prop string, k kindCfg, b zzvrt.Bounds) *zzvrt.Scenario {
 					}
 				}
 			}
+			// C06: everything here was submitted by ONE goroutine (event, event, raw write, event, event): in every
+			// file, and on the console, what is present appears in submission order - events and raw writes alike
+			order := []string{kindEvents[1].payload, kindRaw, kindEvents[2].payload, kindEvents[3].payload}
+			targets := map[string]string{"console": strings.Join(o.console, "")}
+			if k.target == "files" {
+				targets = files
+			}
+			if k.shared {
+				targets = nil // two loggers behind one sink: the statement orders the items of ONE logger
+			}
+			for tn, content := range targets {
+				last, lastItem := -1, ""
+				for _, it := range order {
+					if i := strings.Index(content, it); i >= 0 {
+						if i < last {
+							add("C06", "producer-order", fmt.Sprintf("%s: %q is ahead of %q, which the same goroutine submitted earlier (content=%q)", tn, strings.TrimSpace(it), strings.TrimSpace(lastItem), content))
+						}
+						last, lastItem = i, it
+					}
+				}
+			}
 			for _, l := range strings.SplitAfter(all, "\n") {
 				if l != "" && !strings.HasSuffix(l, "\n") {
 					add("C05", "partial-line", fmt.Sprintf("target ends with a partial line %q", l))
@@ -254,7 +275,7 @@ func firstLines(s string, n int) string {
 }
 
 func init() {
-	for _, prop := range []string{"C05", "C01", "C12", "C15"} {
+	for _, prop := range []string{"C05", "C01", "C12", "C15", "C06"} {
 		prop := prop
 		registerFamily(Fam{Prop: prop, Name: strings.ToLower(prop) + "/logger-kinds", Tiers: "qt",
 			Count: func(string) int { return len(kindConfigs()) },
